@@ -13,6 +13,7 @@ import (
 	"strconv"
 	"strings"
 	"unicode/utf8"
+	"verifharness/chk"
 
 	"google.golang.org/protobuf/encoding/protojson"
 	"google.golang.org/protobuf/proto"
@@ -483,6 +484,10 @@ func devSet(dev []string) string {
 
 func runTrace(lines []string, dev []string) (*tlc.Result, error) {
 	f, err := os.CreateTemp("", "vh-trace-*.ndjson")
+	if err == nil {
+		name := f.Name()
+		chk.AtExit(func() { _ = os.Remove(name) })
+	}
 	if err != nil {
 		return nil, err
 	}
